@@ -446,6 +446,10 @@ def model_task(task, ybin, root, prop):
             # arrays of the widest integers, filled (below) with single high bits: the values at which a varint gets one byte longer
             protos0[0].steps.append(("steerarru64", M.Arr(M.Prim(pr_.choice(["uint64", "uint64", "size"])), pr_.choice([None, 1, 2])), pr_.chance(0.3)))
             protos0[0].steps.append(("steerarri64", M.Arr(M.Prim("int64"), pr_.choice([None, 1, ((None, 4),), ((None, 2), (None, 3))])), pr_.chance(0.3)))
+            if pr_.fork("bigschema").chance(0.35):
+                # a schema text of twenty-odd kilobytes: an enumeration with several hundred symbols, used by the first protocol
+                pkg.files[fn0].append(M.Enum("AaaBigCodes", "uint16", [("code%03d" % k_, k_) for k_ in range(pr_.fork("bigschema2").randint(620, 900))]))
+                protos0[0].steps.append(("steerbigcode", M.Named("AaaBigCodes"), pr_.chance(0.5)))
             # one generic record instantiated with containers that differ in their element type only (vectors of float / double,
             # maps to int / double, unions): per-instantiation serializers must not be mixed up within a process
             pkg.files[fn0].append(M.Record("SteerBox", ("T",), [("payload", M.TParam("T")), ("label", M.Prim("string"))]))
